@@ -209,6 +209,21 @@ impl Backend for Rasn {
             });
             let (pdus, warnings): (Vec<TokenStream>, Vec<CompilerError>) =
                 tlds.into_iter().fold((vec![], vec![]), |mut acc, tld| {
+                    #[cfg(feature = "verif-hooks")]
+                    {
+                        crate::verif::point("gen:tld");
+                        if crate::verif::buggify("generate", tld.name()) {
+                            acc.1.push(
+                                GeneratorError::new(
+                                    Some(tld),
+                                    "verif-hooks: injected generator failure",
+                                    GeneratorErrorType::Unidentified,
+                                )
+                                .into(),
+                            );
+                            return acc;
+                        }
+                    }
                     match self.generate_tld(tld) {
                         Ok(s) => {
                             acc.0.push(s);
